@@ -53,7 +53,8 @@ type Case struct {
 	Phase  int  // offset of the stride
 	Torn   bool // additionally capture torn prefixes of writes at stride points
 	Post   []eng.Maint
-	PostN  int // number of images that get the post-recovery maintenance schedule (C11)
+	Tear   []int `json:",omitempty"` // non-empty: torn-mapping images of value-log appends instead of file-operation crash points (see tear.go)
+	PostN  int   // number of images that get the post-recovery maintenance schedule (C11)
 	Expect string
 }
 
@@ -328,54 +329,8 @@ func Drive(c Case, dir, imgRoot string, r *pbt.Rec) (res *Result, err error) {
 			curOp = "maint " + op.M.Kind
 		}
 		fs.AddStarted(1)
-		switch op.K {
-		case "set":
-			w := op.Ws[0]
-			key := c.Keys[w.Key%len(c.Keys)]
-			var werr error
-			if w.Del {
-				werr = db.DelCF(kv.ColumnFamily(w.CF), key)
-			} else {
-				werr = db.SetCF(kv.ColumnFamily(w.CF), key, value(c, i, 0, w))
-			}
-			if werr != nil {
-				return res, pbt.Failf("write-error", "op %d: %v", i, werr)
-			}
-			if w.Del {
-				delete(cur, skey(w.CF, key))
-			} else {
-				cur[skey(w.CF, key)] = value(c, i, 0, w)
-			}
-		case "txn":
-			tx := db.NewTransaction(true)
-			for j, w := range op.Ws {
-				key := c.Keys[w.Key%len(c.Keys)]
-				var werr error
-				if w.Del {
-					werr = tx.Delete(append([]byte(nil), key...))
-				} else {
-					werr = tx.SetEntry(kv.NewEntry(append([]byte(nil), key...), value(c, i, j, w)))
-				}
-				if werr != nil {
-					tx.Discard()
-					return res, pbt.Failf("write-error", "op %d: %v", i, werr)
-				}
-			}
-			if cerr := tx.Commit(); cerr != nil {
-				return res, pbt.Failf("write-error", "op %d: Commit: %v", i, cerr)
-			}
-			for j, w := range op.Ws {
-				key := c.Keys[w.Key%len(c.Keys)]
-				if w.Del {
-					delete(cur, skey(0, key))
-				} else {
-					cur[skey(0, key)] = value(c, i, j, w)
-				}
-			}
-		case "maint":
-			if _, merr := eng.DoMaint(db, op.M, r); merr != nil {
-				return res, pbt.Failf("maint-error", "op %d: %v", i, merr)
-			}
+		if aerr := applyOp(c, db, i, op, cur, r); aerr != nil {
+			return res, aerr
 		}
 		fs.AddAcked(1)
 		res.States = append(res.States, cur.clone())
@@ -501,6 +456,60 @@ func diff(a, b state) string {
 }
 
 // Verdict of one image.
+// applyOp runs one client operation against db and the model.
+func applyOp(c Case, db *NoKV.DB, i int, op Op, cur state, r *pbt.Rec) error {
+	switch op.K {
+	case "set":
+		w := op.Ws[0]
+		key := c.Keys[w.Key%len(c.Keys)]
+		var werr error
+		if w.Del {
+			werr = db.DelCF(kv.ColumnFamily(w.CF), key)
+		} else {
+			werr = db.SetCF(kv.ColumnFamily(w.CF), key, value(c, i, 0, w))
+		}
+		if werr != nil {
+			return pbt.Failf("write-error", "op %d: %v", i, werr)
+		}
+		if w.Del {
+			delete(cur, skey(w.CF, key))
+		} else {
+			cur[skey(w.CF, key)] = value(c, i, 0, w)
+		}
+	case "txn":
+		tx := db.NewTransaction(true)
+		for j, w := range op.Ws {
+			key := c.Keys[w.Key%len(c.Keys)]
+			var werr error
+			if w.Del {
+				werr = tx.Delete(append([]byte(nil), key...))
+			} else {
+				werr = tx.SetEntry(kv.NewEntry(append([]byte(nil), key...), value(c, i, j, w)))
+			}
+			if werr != nil {
+				tx.Discard()
+				return pbt.Failf("write-error", "op %d: %v", i, werr)
+			}
+		}
+		if cerr := tx.Commit(); cerr != nil {
+			return pbt.Failf("write-error", "op %d: Commit: %v", i, cerr)
+		}
+		for j, w := range op.Ws {
+			key := c.Keys[w.Key%len(c.Keys)]
+			if w.Del {
+				delete(cur, skey(0, key))
+			} else {
+				cur[skey(0, key)] = value(c, i, j, w)
+			}
+		}
+	case "maint":
+		if _, merr := eng.DoMaint(db, op.M, r); merr != nil {
+			return pbt.Failf("maint-error", "op %d: %v", i, merr)
+		}
+	}
+	return nil
+}
+
 type Verdict struct {
 	Err      error  // nil if the image satisfies the checked properties
 	Prop     string // which family the failure belongs to: "reopen", "acked", "prefix", "readable"
